@@ -168,8 +168,50 @@ fn check_graph_as_dataset_enumerations() {
     }
 }
 
+/// read paths of the graph-as-dataset view over real graphs: every triple is a quad of the default graph and of no other
+fn check_graph_as_dataset_reads() {
+    use sophia_api::dataset::adapter::GraphAsDataset;
+    use sophia_api::term::matcher::Not;
+    use sophia_inmem::graph::FastGraph;
+    let all: Vec<(u8, u8, u8)> = vec![(1, 1, 1), (1, 1, 2), (2, 1, 1), (2, 2, 2)];
+    for mask in 0..16u32 {
+        let trs: Vec<(u8, u8, u8)> = all.iter().enumerate().filter(|(i, _)| mask & (1 << i) != 0).map(|(_, x)| *x).collect();
+        let want: BTreeSet<(u8, u8, u8)> = trs.iter().cloned().collect();
+        macro_rules! on { ($g:expr, $name:expr) => {{
+            let g = $g;
+            let v = GraphAsDataset::new(&g);
+            let qd = |it: &mut dyn Iterator<Item = ((u8, u8, u8), bool)>| -> (BTreeSet<(u8, u8, u8)>, bool, usize) { let mut s = BTreeSet::new(); let mut all_default = true; let mut n = 0; for (t, d) in it { s.insert(t); all_default &= d; n += 1; } (s, all_default, n) };
+            macro_rules! q { ($what:expr, $it:expr, $expect:expr) => {{
+                let (got, all_default, n) = qd(&mut $it.map(|x| { let x = x.unwrap(); ((num(&x.s()), num(&x.p()), num(&x.o())), x.g().is_none()) }));
+                let exp: BTreeSet<(u8, u8, u8)> = $expect;
+                if got != exp || !all_default || n != exp.len() { println!("{{\"mismatch\":\"GraphAsDataset::{} over {} differs from the graph's triples in the default graph\",\"graph\":\"{:?}\",\"detail\":\"got {:?} (all in default graph: {}, {} items) expected {:?}\"}}", $what, $name, trs, got, all_default, n, exp); std::process::exit(1); }
+            }}}
+            q!("quads()", v.quads(), want.clone());
+            q!("quads_matching(*,*,*,Any)", v.quads_matching(Any, Any, Any, Any), want.clone());
+            q!("quads_matching(*,*,*,[default])", v.quads_matching(Any, Any, Any, [None::<T>]), want.clone());
+            q!("quads_matching(*,*,*,[g])", v.quads_matching(Any, Any, Any, [Some(t(11))]), BTreeSet::new());
+            q!("quads_matching(*,*,*,[g, g2])", v.quads_matching(Any, Any, Any, [Some(t(11)), Some(t(12))]), BTreeSet::new());
+            q!("quads_matching(*,*,*,[g, default])", v.quads_matching(Any, Any, Any, [Some(t(11)), None]), want.clone());
+            q!("quads_matching(*,*,*,Not([default]))", v.quads_matching(Any, Any, Any, Not([None::<T>])), BTreeSet::new());
+            q!("quads_matching(*,*,*,Not([g]))", v.quads_matching(Any, Any, Any, Not([Some(t(11))])), want.clone());
+            q!("quads_matching(*,*,*,closure is_none)", v.quads_matching(Any, Any, Any, |g: GraphName<SimpleTerm>| g.is_none()), want.clone());
+            q!("quads_matching(*,*,*,closure is_some)", v.quads_matching(Any, Any, Any, |g: GraphName<SimpleTerm>| g.is_some()), BTreeSet::new());
+            q!("quads_matching([1],*,[2],[default])", v.quads_matching([t(1)], Any, [t(2)], [None::<T>]), want.iter().cloned().filter(|x| x.0 == 1 && x.2 == 2).collect());
+            for x in &all {
+                let c0 = v.contains(t(x.0), t(x.1), t(x.2), None::<T>).unwrap();
+                let c1 = v.contains(t(x.0), t(x.1), t(x.2), Some(t(11))).unwrap();
+                if c0 != want.contains(x) || c1 { println!("{{\"mismatch\":\"GraphAsDataset::contains over {}\",\"graph\":\"{:?}\",\"detail\":\"{:?}: in the default graph {} (expected {}), in a named graph {} (expected false)\"}}", $name, trs, x, c0, want.contains(x), c1); std::process::exit(1); }
+            }
+            if v.graph_names().next().is_some() { println!("{{\"mismatch\":\"GraphAsDataset::graph_names not empty over {}\"}}", $name); std::process::exit(1); }
+        }}}
+        on!({ let mut g = FastGraph::new(); for x in &trs { g.insert(t(x.0), t(x.1), t(x.2)).unwrap(); } g }, "FastGraph");
+        on!({ let g: Vec<[T; 3]> = trs.iter().map(|x| [t(x.0), t(x.1), t(x.2)]).collect(); g }, "Vec<[T;3]>");
+    }
+}
+
 fn main() {
     check_graph_as_dataset();
+    check_graph_as_dataset_reads();
     check_graph_as_dataset_enumerations();
     let mut all: Vec<Q> = vec![];
     for s in [1u8, 2] { for o in [1u8, 2] { for gi in 0..3u8 { all.push((s, 1, o, gi)); } } }
